@@ -150,6 +150,13 @@ def run(tier, seed, t0):
                               invariants=["InvWellTyped", "InvResultsWellTyped"], extra_hook=collect_hooks)
     cov, rej = _diagapi.run("C01", "J01", tier, seed, t0,
                             invariants=["InvWellTyped", "InvResultsWellTyped"], extra_hook=hook_leg)
+    covc, rejc = _diagapi.run("C01", "J01", tier, seed, t0, cls="cat", invariants=["InvWellTyped", "InvResultsWellTyped"])
+    cov["cat_machine"] = {k: covc[k] for k in ("states", "transitions", "traces_validated_against_impl", "model", "replay",
+                                               "verdicts_by_clause", "canary")}
+    cov["states"] += covc["states"]
+    cov["transitions"] += covc["transitions"]
+    cov["traces_validated_against_impl"] += covc["traces_validated_against_impl"]
+    rejr = rejr + rejc
     cov["rigid_machine"] = {k: covr[k] for k in ("states", "transitions", "traces_validated_against_impl", "model", "replay",
                                                  "verdicts_by_clause", "canary")}
     cov["states"] += covr["states"]
